@@ -65,6 +65,16 @@ CHECKS["C04"] = dict(level="exploration", ref="DESIGN.md §4 C04",
     note="Trusted: reference is the same library along the single-call path. Inputs whose single-call reference returns errors are skipped and counted. GetComponentCount/GetComponent are not used as benign calls (ListComponents rewrites the KINETICS -totals workspace field; recorded in DESIGN).",
     technique="deterministic simulation: seeded delivery histories (cut sets x entry points x read chunking/EINTR x benign calls) vs single-call reference execution")
 
+CHECKS["C10"] = dict(level="exploration", ref="DESIGN.md §4 C10",
+    text="Checkpoint / crash / restart over seeded histories: 1-5 state-building calls covering every entity kind, DUMP -all taken at a drawn call boundary from the dump "
+         "string or from the dump file captured by the simulated file layer, the instance abandoned, and a new instance restarted from the database, the definitions and that "
+         "text (through RunString, or RunFile under short reads and EINTR). Oracles: the restore raises no error; dump(restore(D')) == D' after one cycle; follow-ups "
+         "(equilibration, RUN_CELLS, MIX, ADVECTION) give the same selected-output cells on the restored and the original state (relative 1e-7; kinetic integration 1e-4); "
+         "storage-bin / serializer / engine-copy round trips in memory leave text (where carried) and follow-up results unchanged; SOLUTION_MODIFY of totals, H, O, charge "
+         "over a solution of different composition gives the same follow-up.",
+    note="Trusted: reference is the original instance of the same library; pe and far-from-saturation SI columns are ill-conditioned and handled as documented in the module. Known findings KF19 (14-digit text vs unbuffered pH) and KF20 (isotopes in SOLUTION_RAW cannot be read back).",
+    technique="deterministic simulation: seeded histories with checkpoint at a drawn boundary, crash (instance abandoned) and restart from durable text under read chunking; original instance as reference; fixed-point check")
+
 NA = {
     "C01": "pure function of (input, database): deciding it needs an independent thermodynamic evaluator, no schedule, clock, fault or call history takes part",
     "C03": "pure function of the input assemblage; the only fault-like path (solver retry ladder) is exercised under C02",
@@ -77,7 +87,7 @@ NA = {
     "C19": "pure function of the gas-phase input",
     "C20": "pure function of the surface input",
 }
-PENDING = {k: "claimed in DESIGN.md; its check is still under construction in this build phase and is not registered yet" for k in ("C02","C10","C14")}
+PENDING = {k: "claimed in DESIGN.md; its check is still under construction in this build phase and is not registered yet" for k in ("C02","C14")}
 
 
 def main():
